@@ -28,7 +28,7 @@ func verifYield() { runtime.Gosched() }
 // never reappear once replaced.
 func c21(c *rig.Ctx) {
 	c.Rule("C21: the C20 machinery with the writer mix commitws 55 / updws 20 / commit 8 / sethead 7 / ff 5 / delete 5 and 2 observers per history that snapshot all datasets from one Datasets() map (consecutive identical snapshots of an observer are recorded once); a history is distinct by its operations and non-trivial when ≥ 2 conditional updates with the same expectation overlapped")
-	c.Assume("C21: exploration part only — interleavings with concurrent writers; the crash-point part (C03-style crash images of the combined update) is not covered by this stage")
+	c.Assume("C21: this stage is the exploration part (interleavings with concurrent writers); crash points are the subject of stage `crash`")
 	c.Assume("C21: dropping repeated identical observer snapshots cannot turn a linearizable history into a non-linearizable one (sound, slightly weaker)")
 	c20Hooks()
 	cnt := c20Drive(c, "c21", c.Pick(200, 6000), []string{"c21"}, 2)
